@@ -61,6 +61,9 @@ type World struct {
 	Clients []*Client
 	Tick    int // virtual time steps taken
 	Dead    bool
+	// LastPanic is the description of the last panic that escaped the real
+	// code in any transition.
+	LastPanic string
 }
 
 var (
@@ -77,15 +80,25 @@ func GroupsDirty() { lastGroups = nil }
 // `go` statement of the instrumented packages is dropped in Engine D (RTCP
 // loops, readLoop, websocket reader/writer: no media or sockets are modelled).
 var QueuedGo = []string{
-	"rtpconn.pushConn.func1",         // the 200 ms delayed push of a stream
-	"rtpconn.handleAction.func1",     // `change` broadcast after a permission change
+	"rtpconn.pushConn.func1",           // the 200 ms delayed push of a stream
+	"rtpconn.handleAction.func1",       // `change` broadcast after a permission change
 	"rtpconn.handleClientMessage.func", // `change` broadcast after setdata
-	"group.autoLockKick.func1",       // autokick kicker
+	"group.autoLockKick.func1",         // autokick kicker
 }
+
+// Scheduled makes the process run Engine D worlds under the cooperative
+// scheduler of Engine B (call before the first NewWorld): message handlers
+// of different clients then run as controlled threads and interleave at
+// every lock operation of the instrumented packages.
+var Scheduled bool
 
 func initProcess() {
 	once.Do(func() {
-		vrt.SetMode(vrt.Tasks)
+		if Scheduled {
+			vrt.SetMode(vrt.Scheduled)
+		} else {
+			vrt.SetMode(vrt.Tasks)
+		}
 		vrt.TaskPolicy = func(pos string) vrt.Policy {
 			for _, q := range QueuedGo {
 				if strings.Contains(pos, q) {
@@ -239,6 +252,9 @@ func (c *Client) apply(m Msg) {
 func (w *World) guard(o *Obs, f func()) {
 	defer func() {
 		if r := recover(); r != nil {
+			if vrt.IsAbort(r) {
+				panic(r)
+			}
 			st := string(debug.Stack())
 			if i := strings.Index(st, "panic("); i >= 0 {
 				st = st[i:]
@@ -247,6 +263,7 @@ func (w *World) guard(o *Obs, f func()) {
 				st = st[:2500]
 			}
 			o.Panic = fmt.Sprintf("%v\n%s", r, st)
+			w.LastPanic = o.Panic
 			w.Dead = true
 		}
 	}()
